@@ -191,6 +191,7 @@ def run_exact(op, pid, case):
                     res.append(r)
                 continue
             res.append(vc.unsupported_result(f'{pre}unsupported', cname, out.note))
+            res += [r for r in vc.definite_results(I, pre, cname) if op.serves(r['name'], pid)]
             continue
         if isinstance(out, vc.Outcome) and out.kind == 'return':
             returned += 1
@@ -239,7 +240,7 @@ class CreateFromOp(clib.Op):
 
     def cases(self, tier):
         out = []
-        pairs = PAIRS if tier == 'thorough' else [('mol', 'L'), ('g', 'g'), ('g', 'L'), ('mol', 'mol')]
+        pairs = PAIRS if tier == 'thorough' else [('mol', 'L'), ('g', 'g'), ('g', 'L'), ('mol', 'mol'), ('L', 'L')]
         qunits = ['mL', 'g', 'mol'] if tier != 'thorough' else ['L', 'mL', 'g', 'mg', 'mol', 'mmol']
         for pair in pairs:
             for qu in qunits:
